@@ -33,3 +33,77 @@ package revision
 //@   assert [C08:keeps-later] forall j :: i <= j && j < len(lock.Packages) ==> lock.Packages[j].Name == $old[j + 1].Name
 //@ ensures [C08:absent-means-no-write] err == nil && writes == old(writes) ==>
 //@        (call("k8s.io/apimachinery/pkg/api/errors.IsNotFound", $geterr) || forall j :: 0 <= j && j < len($old) ==> $old[j].Name != pr.GetName())
+
+// C16: establishing a package's objects is validated as a whole (dry-run) before anything is
+// written for real; an inactive revision never creates objects and never takes control.
+
+//@ func (*revision.APIEstablisher).Establish
+//@ props C16
+//@ ghost validated bool = false
+//@ let $all = result (*revision.APIEstablisher).validate
+//@ site (*revision.APIEstablisher).validate(_, _, $objs, $parent, $control)
+//@   assert [C16:validates-what-was-asked] $objs == objs && $parent == parent && $control == control
+//@   update validated = err == nil
+//@ site (*revision.APIEstablisher).establish(_, _, $objs, $parent, $control)
+//@   assert [C16:establish-only-after-validation] validated
+//@   assert [C16:establishes-what-was-validated] $objs == $all && $parent == parent && $control == control
+
+//@ func (*revision.APIEstablisher).validate$1
+//@ props C16
+//@ optional site (*revision.APIEstablisher).create(_, _, _, _, $opts...)
+//@   assert [C16:validation-creates-are-dry-run] len($opts) == 1 && typeis($opts[0], client.dryRunAll)
+//@   assert [C16:validation-creates-only-when-controlling] control
+//@ optional site (*revision.APIEstablisher).update(_, _, _, _, _, $control, $opts...)
+//@   assert [C16:validation-updates-are-dry-run] len($opts) == 1 && typeis($opts[0], client.dryRunAll)
+//@   assert [C16:validation-update-role] $control == control
+//@ optional site (client.Writer).Create(_, _, _)
+//@   assert [C16:validation-never-writes-directly] false
+//@ optional site (client.Writer).Update(_, _, _)
+//@   assert [C16:validation-never-writes-directly] false
+//@ optional site (client.Writer).Patch(_, _, _, _)
+//@   assert [C16:validation-never-writes-directly] false
+//@ optional site (client.Writer).Delete(_, _, _)
+//@   assert [C16:validation-never-writes-directly] false
+
+//@ func (*revision.APIEstablisher).establish$1
+//@ props C16
+//@ optional site (*revision.APIEstablisher).create(_, _, $obj, _, $opts...)
+//@   assert [C16:only-a-controlling-revision-creates] control && !cd.Exists && $obj == cd.Desired
+//@   assert [C16:real-create-is-not-dry-run] len($opts) == 0
+//@ optional site (*revision.APIEstablisher).update(_, _, $cur, $des, _, $control, $opts...)
+//@   assert [C16:update-keeps-the-role] $control == control && cd.Exists && $cur == cd.Current && $des == cd.Desired
+//@   assert [C16:real-update-is-not-dry-run] len($opts) == 0
+
+//@ func (*revision.APIEstablisher).update
+//@ props C16
+//@ ghost controllerAdded bool = false
+//@ optional site meta.AddControllerReference($o, _)
+//@   assert [C16:only-a-controlling-revision-takes-control] control && $o == desired
+//@   update controllerAdded = err == nil
+//@ site (client.Writer).Update(_, _, $o, $uo...)
+//@   assert [C16:inactive-revision-writes-the-existing-object] !control ==> ($o == current && !controllerAdded)
+//@   assert [C16:active-revision-writes-the-controlled-desired-object] control ==> ($o == desired && controllerAdded && desired.GetResourceVersion() == current.GetResourceVersion())
+//@   assert [C16:dry-run-option-forwarded] $uo == opts
+
+//@ func (*revision.APIEstablisher).create
+//@ props C16
+//@ site (v1.Object).SetOwnerReferences(_, $refs)
+//@   assert [C16:created-object-controlled-by-the-revision] len($refs) >= 1 && $refs[0].UID == parent.GetUID() && $refs[0].Controller != nil && *$refs[0].Controller
+//@   assert [C16:package-is-a-plain-owner] forall j :: 1 <= j && j < len($refs) ==> ($refs[j].Controller != nil && !*$refs[j].Controller)
+//@ site (client.Writer).Create(_, _, $o, $co...)
+//@   assert [C16:creates-the-given-object] $o == obj && $co == opts
+
+// C16 (release): a revision that gives up its objects stays an owner of each of them but is no
+// longer their controller; no other owner reference is dropped.
+
+//@ func (*revision.APIEstablisher).ReleaseObjects$1
+//@ props C16
+//@ let $old = result (*unstructured.Unstructured).GetOwnerReferences
+//@ loop range ors
+//@   invariant [C16:not-found-so-far] !found ==> forall j :: 0 <= j && j < done ==> ors[j].UID != parent.GetUID()
+//@   invariant [C16:owners-slice-kept] ors == $old && (changed ==> found)
+//@ optional site (*unstructured.Unstructured).SetOwnerReferences(_, $refs)
+//@   assert [C16:release-keeps-every-owner] len($refs) >= len($old)
+//@   assert [C16:released-revision-stays-a-plain-owner] exists j :: 0 <= j && j < len($refs) && $refs[j].UID == parent.GetUID() && ($refs[j].Controller == nil || !*$refs[j].Controller)
+//@ optional site (client.Writer).Update(_, _, $o)
+//@   assert [C16:release-updates-the-fetched-object] $o == &u
